@@ -298,6 +298,7 @@ pub fn by_family(fam: &str, seed: u64) -> Scenario {
         "ctlB" => ctl_b(seed),
         "concBc" => conc_bc(seed),
         "faultA" => fault_a(seed),
+        "abuseB" => abuse_b(seed),
         "goawayBc" => goaway_bc(seed),
         "shutdownA" => shutdown_a(seed),
         _ => mix_a(seed, false),
@@ -900,5 +901,148 @@ pub fn shutdown_a(seed: u64) -> Scenario {
     let at = rng.gen_range(5..200);
     let op = if rng.gen_bool(0.7) { EnvOp::Conn { ep: 1, op: "graceful_shutdown".into(), n: 0 } } else { EnvOp::Conn { ep: 1, op: "abrupt_shutdown".into(), n: pick(&mut rng, &CODES) } };
     s.env.push(EnvStep { at: "step".into(), n: at, op });
+    s
+}
+
+// ---------------------------------------------------------------------------
+// Modes Bs / Bc: a legal prefix (streams in assorted states), then one or more frames from a catalogue of
+// protocol violations and of legal-but-unusual behaviour (C08, C09), then a probe: a fresh stream must still be
+// served unless the violation was a connection error. The TLA+ monitor classifies every received frame itself
+// (H2Wire!Classify); the generator only supplies inputs.
+fn hx(b: &[u8]) -> String {
+    b.iter().map(|x| format!("{:02x}", x)).collect()
+}
+
+pub fn abuse_items(rng: &mut StdRng, server: bool, open_sid: u32, closed_sid: u32, idle_sid: u32) -> Vec<PeerStep> {
+    let fr = |ty: u8, fl: u8, sid: u32, p: &[u8]| PeerStep::Frame { ty, fl, sid, hex: hx(p) };
+    let u32b = |v: u32| v.to_be_bytes().to_vec();
+    let n = 56;
+    match rng.gen_range(0..n) {
+        // ---- framing
+        0 => vec![fr(4, 0, 0, &[0, 3, 0, 0, 0])],                       // SETTINGS length 5
+        1 => vec![fr(4, 1, 0, &[0, 3, 0, 0, 0, 1])],                    // SETTINGS ACK with payload
+        2 => vec![fr(6, 0, 0, &[1, 2, 3, 4, 5, 6, 7])],                 // PING length 7
+        3 => vec![fr(6, 0, open_sid, &[0; 8])],                         // PING on a stream
+        4 => vec![fr(3, 0, open_sid, &[0, 0, 8])],                      // RST_STREAM length 3
+        5 => vec![fr(3, 0, 0, &u32b(8))],                               // RST_STREAM on stream 0
+        6 => vec![fr(8, 0, open_sid, &[0, 0, 1])],                      // WINDOW_UPDATE length 3
+        7 => vec![fr(8, 0, open_sid, &u32b(0))],                        // WINDOW_UPDATE 0 on a stream
+        8 => vec![fr(8, 0, 0, &u32b(0))],                               // WINDOW_UPDATE 0 on the connection
+        9 => vec![fr(8, 0, 0, &u32b(0x7fff_ffff))],                     // connection window overflow
+        10 => vec![fr(8, 0, open_sid, &u32b(0x7fff_ffff))],             // stream window overflow
+        11 => vec![fr(2, 0, open_sid, &[0, 0, 0, 0])],                  // PRIORITY length 4
+        12 => vec![fr(2, 0, 0, &[0, 0, 0, 1, 5])],                      // PRIORITY on stream 0
+        13 => vec![PeerStep::Priority { sid: open_sid, dep: open_sid, excl: false, weight: 1 }], // self dependency
+        14 => vec![fr(7, 0, 0, &[0, 0, 0, 0, 0, 0, 0])],                // GOAWAY length 7
+        15 => vec![fr(7, 0, open_sid, &[0, 0, 0, 0, 0, 0, 0, 0])],      // GOAWAY on a stream
+        16 => vec![fr(0, 0, 0, b"x")],                                  // DATA on stream 0
+        17 => vec![fr(0, 0, idle_sid, b"x")],                           // DATA on an idle stream
+        18 => vec![fr(0, 8, open_sid, &[5, 1, 2])],                     // DATA padding >= length
+        19 => vec![fr(1, 4, 0, &[0x82])],                               // HEADERS on stream 0
+        20 => vec![fr(1, 5, if server { idle_sid + 1 } else { idle_sid }, &[0x82, 0x86, 0x84])], // wrong parity / server HEADERS on idle
+        21 => vec![fr(9, 4, open_sid, &[0x82])],                        // CONTINUATION without HEADERS
+        22 => vec![fr(1, 0, idle_sid, &[0x82]), fr(0, 0, idle_sid, b"x")], // HEADERS w/o END_HEADERS then DATA
+        23 => vec![fr(5, 4, open_sid, &[0, 0, 0, 2, 0x82])],            // PUSH_PROMISE (to a server: error; to a client on open stream: needs push enabled)
+        24 => vec![PeerStep::Raw { hex: hx(&{ let mut v = vec![0x01, 0x00, 0x00, 0, 0, 0, 0, 0, open_sid as u8]; v.extend(vec![0u8; 100]); v }) }], // frame of 65536 octets announced (> max frame size)
+        25 => vec![fr(1, 5, idle_sid, &[0x80])],                        // HPACK index 0
+        26 => vec![fr(1, 5, idle_sid, &[0xff, 0xff, 0xff, 0x7f])],      // HPACK huge index
+        27 => vec![PeerStep::Settings { vals: vec![(2, 2)] }],          // ENABLE_PUSH = 2
+        28 => vec![PeerStep::Settings { vals: vec![(4, 0x8000_0000)] }],// INITIAL_WINDOW_SIZE 2^31
+        29 => vec![PeerStep::Settings { vals: vec![(5, 100)] }],        // MAX_FRAME_SIZE 100
+        30 => vec![PeerStep::Data { sid: closed_sid, n: 5, eos: false, pad: None }], // DATA after END_STREAM
+        31 => vec![PeerStep::SettingsAck],                              // ACK that answers nothing
+        32 => vec![fr(1, 5, closed_sid, &[0x82, 0x86, 0x84])],          // HEADERS on a closed stream
+        33 => vec![fr(0, 1, idle_sid.saturating_sub(4).max(1), b"")],   // DATA on a skipped (implicitly closed) id
+        34 => vec![PeerStep::Goaway { last: 0x7fff_ffff, code: 0, dbg: 0 }, PeerStep::Goaway { last: 1, code: 0, dbg: 0 }, PeerStep::Goaway { last: 3, code: 0, dbg: 0 }],
+        // ---- legal but unusual
+        35 => vec![fr(0xee, 0xff, 0, b"unknown")],                      // unknown frame type, stream 0
+        36 => vec![fr(0xee, 0, open_sid, b"unknown")],                  // unknown frame type on a stream
+        37 => vec![PeerStep::Settings { vals: vec![(0x99, 7)] }],       // unknown setting
+        38 => vec![PeerStep::Priority { sid: idle_sid + 20, dep: 0, excl: false, weight: 3 }], // PRIORITY on idle
+        39 => vec![PeerStep::Priority { sid: closed_sid, dep: 0, excl: true, weight: 255 }],   // PRIORITY on closed
+        40 => vec![PeerStep::Wu { sid: closed_sid, inc: 10 }],          // WINDOW_UPDATE on closed stream
+        41 => vec![PeerStep::Rst { sid: closed_sid, code: 8 }],         // RST_STREAM on closed stream
+        42 => vec![PeerStep::Data { sid: open_sid, n: 3, eos: false, pad: Some(0) }],
+        43 => vec![PeerStep::Data { sid: open_sid, n: 0, eos: false, pad: None }],
+        44 => vec![PeerStep::Settings { vals: vec![] }],
+        45 => vec![PeerStep::Ping { ack: false, pl: 1 }, PeerStep::Ping { ack: false, pl: 2 }, PeerStep::Ping { ack: false, pl: 3 }],
+        46 => vec![PeerStep::Ping { ack: true, pl: 77 }],               // unsolicited PING ACK: ignored
+        47 => vec![fr(1, 0x2d, idle_sid, &[2, 0, 0, 0, 0, 7, 0x82, 0x86, 0x84, 0, 0])], // HEADERS padded + priority + END_STREAM (legal for a server peer; a client gets it on idle = error)
+        48 => vec![PeerStep::Rst { sid: open_sid, code: pick(rng, &CODES) }],
+        49 => vec![PeerStep::Wu { sid: 0, inc: 1 }, PeerStep::Wu { sid: open_sid, inc: 1 }],
+        50 => vec![PeerStep::Settings { vals: vec![(1, 0), (4, 0), (5, 16384)] }],
+        51 => vec![PeerStep::Settings { vals: vec![(3, 0)] }],
+        52 => vec![fr(9, 0, idle_sid + 2, &[])],                        // stray CONTINUATION on idle
+        53 => vec![PeerStep::Raw { hex: hx(&(0..40).map(|_| rng.gen::<u8>()).collect::<Vec<u8>>()) }], // noise
+        54 => vec![PeerStep::Data { sid: open_sid, n: 70000, eos: false, pad: None }], // larger than any window / frame size
+        _ => vec![PeerStep::Goaway { last: 0, code: pick(rng, &CODES), dbg: 3 }],
+    }
+}
+
+pub fn abuse_b(seed: u64) -> Scenario {
+    let mut rng = StdRng::seed_from_u64(seed ^ 0xAB_05E);
+    let mut s = Scenario::default();
+    let server = rng.gen_bool(0.6);
+    s.name = format!("abuseB-{}", seed);
+    s.mode = if server { "Bs".into() } else { "Bc".into() };
+    s.sched.seed = seed;
+    s.peer_cfg.settings = vec![];
+    s.peer_cfg.ack_settings = true;
+    s.peer_cfg.ack_ping = true;
+    s.peer_cfg.grant = "all".into();
+    s.peer_cfg.respond = true;
+    s.io.deliver = pick(&mut rng, &["all", "all", "rand", "byte"]).to_string();
+    let mut steps = vec![];
+    let hdr = |sid: u32, eos: bool| PeerStep::Headers { sid, hid: 0, fields: vec![], eos, frag: 0, huff: false, status: 0, req: true, method: "POST".into(), tag: sid };
+    if server {
+        // prefix: stream 1 open (body continues), stream 3 closed (request complete, answered)
+        steps.push(hdr(1, false));
+        steps.push(PeerStep::Data { sid: 1, n: 10, eos: false, pad: None });
+        steps.push(hdr(3, true));
+        steps.push(PeerStep::WaitQ);
+        for it in 0..rng.gen_range(1..3) {
+            let _ = it;
+            steps.append(&mut abuse_items(&mut rng, true, 1, 3, 5));
+        }
+        steps.push(PeerStep::WaitQ);
+        // probe
+        steps.push(hdr(21, true));
+        steps.push(PeerStep::WaitQ);
+        steps.push(PeerStep::Data { sid: 1, n: 0, eos: true, pad: None });
+        steps.push(PeerStep::WaitQ);
+        s.srv.push(SrvProg { ops: vec![SendOp::Response { status: 200, hid: 0, eos: true }], read: ReadPol::default(), note: String::new() });
+    } else {
+        // prefix: request 1 open (peer has not answered), request 2 answered and closed
+        s.peer_cfg.respond = false;
+        for i in 0..2u32 {
+            let mut r = ReqProg::default();
+            r.tag = i + 1;
+            r.ready = true;
+            r.eos = true;
+            r.read.push = true;
+            s.reqs.push(r);
+        }
+        steps.push(PeerStep::WaitQ);
+        steps.push(PeerStep::Headers { sid: 3, hid: 0, fields: vec![], eos: true, frag: 0, huff: false, status: 200, req: false, method: String::new(), tag: 0 });
+        steps.push(PeerStep::Headers { sid: 1, hid: 0, fields: vec![], eos: false, frag: 0, huff: false, status: 200, req: false, method: String::new(), tag: 0 });
+        steps.push(PeerStep::WaitQ);
+        for _ in 0..rng.gen_range(1..3) {
+            steps.append(&mut abuse_items(&mut rng, false, 1, 3, 7));
+        }
+        steps.push(PeerStep::WaitQ);
+        // probe: a request issued afterwards is answered
+        let mut r = ReqProg::default();
+        r.tag = 3;
+        r.ready = true;
+        r.eos = true;
+        r.start_q = Some(3);
+        s.reqs.push(r);
+        steps.push(PeerStep::Auto { ack_settings: None, ack_ping: None, grant: None, respond: Some(true) });
+        steps.push(PeerStep::WaitQ);
+        steps.push(PeerStep::Data { sid: 1, n: 0, eos: true, pad: None });
+        steps.push(PeerStep::WaitQ);
+    }
+    s.peer = steps;
+    s.drop_sr_when_done = true;
     s
 }
